@@ -93,13 +93,20 @@ def agrees (client : Bool) (m i : Summary) : Bool :=
   (if client then m.routed.isPerm i.routed else decide (m.routed = i.routed)) &&
   decide ({ m with routed := [] } = { i with routed := [] })
 
-def stepWith (oracle : Case → Summary → Bool) (d : DSt) (fields : List String) (impl : String) : DSt × Reply :=
+/-- goroutines still alive after the run (the harness appends `leaked=<n>` when the count did not fall back to its
+baseline): the model has none - the routing goroutines end when the handler returns, the receive loop and the
+keepalive end with the connection -/
+def leakFree (impl : String) : Bool :=
+  (impl.splitOn ";").all fun kv => !(kv.startsWith "leaked=") || kv == "leaked=0"
+
+def stepWith (oracle : Case → Summary → Bool) (leakStrict : Bool := false) (d : DSt) (fields : List String) (impl : String) : DSt × Reply :=
   match fields with
   | ["finish"] =>
     let c : Case := ⟨d.client, d.smId, d.n0, d.ins.reverse⟩
     let m := modelSummary c
+    let lk := !leakStrict || leakFree impl
     match parseSummary impl with
-    | some i => (d, ⟨showSummary m, agrees d.client m i, oracle c m, oracle c i, "-"⟩)
+    | some i => (d, ⟨showSummary m, agrees d.client m i && lk, oracle c m, oracle c i && lk, "-"⟩)
     | none => (d, ⟨showSummary m, false, oracle c m, false, "-"⟩)
   | ["resume", "fails"] =>
     -- the reconnection attempt fails before a stream exists: its error is returned, the loss is not reported again
@@ -142,5 +149,6 @@ def stepWith (oracle : Case → Summary → Bool) (d : DSt) (fields : List Strin
 
 def handlerC05 : Handler := ⟨DSt, init, stepWith holdsC05⟩
 def handlerC09 : Handler := ⟨DSt, init, stepWith holdsC09⟩
-def handlerC12 : Handler := ⟨DSt, init, stepWith holdsC12⟩
+-- C12: "no goroutine is left behind"
+def handlerC12 : Handler := ⟨DSt, init, stepWith holdsC12 true⟩
 end XmppVerif.Drv.Recv
